@@ -952,4 +952,60 @@ theorem rare_spec (n W D : Nat) (hn : 2 ≤ n) (hD : D < B ^ (n + 1)) (hnorm : B
         rw [Nat.mul_comm]; exact this
       rw [B_eq] at *; omega
 
+/-- dc_divappr_q.c:72-147 (everything after the reduction loop), repaired C: the invariant of the header of this file -/
+theorem dcTail_spec (C n dn W D Qup qh qn0 : Nat) (ok0 : Bool) (recur : Nat → Nat → Nat → Nat → Res)
+    (hrec : RecOK C n dn D recur) (hdn : dn = n + 1) (hn3 : 3 ≤ n) (hD : D < B ^ (n + 1))
+    (hnorm : B ^ (n + 1) ≤ 2 * D) (hW : W < D * B ^ n) (hsz : 2 * (n + 2) ≤ B) (hqh : qh ≤ 1) :
+    (dcTail true C sbLeaf recur n dn W D Qup qh qn0 ok0).ok = ok0 ∧
+    (dcTail true C sbLeaf recur n dn W D Qup qh qn0 ok0).qh = qh ∧
+    (dcTail true C sbLeaf recur n dn W D Qup qh qn0 ok0).wl ≤ 1 ∧
+    ∃ Ql, Ql < B ^ n ∧ (dcTail true C sbLeaf recur n dn W D Qup qh qn0 ok0).q = Qup * B ^ n + Ql ∧
+      W < (Ql + 1) * D ∧ W / B ^ (n - 1) = tS D Ql n + (dcTail true C sbLeaf recur n dn W D Qup qh qn0 ok0).r3 := by
+  have hB := B_pos
+  have hPn := Bpow_pos n
+  have hPn2 : 2 ≤ B ^ n := by
+    calc 2 ≤ B := by rw [B_eq]; omega
+      _ = B ^ 1 := (pow_one B).symm
+      _ ≤ B ^ n := Nat.pow_le_pow_right hB (by omega)
+  unfold dcTail
+  simp only []
+  have e1 : W / B ^ (n + 1) / B ^ (n - 1) = W / B ^ (2 * n) := by rw [div_pow_add]; congr 2; omega
+  have e2 : D / B / B ^ (n - 1) = D / B ^ n := by rw [div_pow_succ]; congr 2; omega
+  have hlex := lex_ge (W / B ^ (n + 1)) (D / B) (B ^ (n - 1)) (Bpow_pos _)
+  rw [e1, e2] at hlex
+  by_cases hrare : W / B ^ (2 * n) > D / B ^ n ∨ (W / B ^ (2 * n) = D / B ^ n ∧ W / B ^ (n + 1) % B ^ (n - 1) ≥ D / B % B ^ (n - 1))
+  · rw [if_pos hrare]
+    obtain ⟨r1, r2⟩ := rare_spec n W D (by omega) hD hnorm hW hsz (hlex.mp hrare)
+    simp only [Bool.true_and, decide_eq_true_eq]
+    by_cases hs : helper3 n (W / B ^ (n - 1) % B) (W / B ^ n) D / B ^ 2 ≥ B / 2
+    · rw [if_pos hs]
+      obtain ⟨f1, f2⟩ := r1 hs
+      exact ⟨rfl, rfl, Nat.zero_le _, B ^ n - 2, by omega, rfl, f1, f2⟩
+    · rw [if_neg hs]
+      have f2 := r2 hs
+      refine ⟨rfl, rfl, Nat.zero_le _, B ^ n - 1, by omega, rfl, ?_, f2⟩
+      rw [Nat.sub_add_cancel hPn, Nat.mul_comm]; exact hW
+  · rw [if_neg hrare]
+    obtain ⟨sh, hsh⟩ : ∃ sh, sh = n / 2 := ⟨_, rfl⟩
+    obtain ⟨sl, hsl⟩ : ∃ sl, sl = n - sh := ⟨_, rfl⟩
+    rw [← hsh, ← hsl]
+    have hnsum : n = sl + sh := by omega
+    have hsh1 : 1 ≤ sh := by omega
+    have hsl2 : 2 ≤ sl := by omega
+    obtain ⟨h1, h2, h3, h4, h5⟩ := hiPart_spec C n dn W D sl sh recur hrec hdn hnsum hsh1 (by omega) hD hnorm hW hsz
+    generalize hiPart C sbLeaf recur n dn W D sl sh = hi at *
+    obtain ⟨Qh', X, cyf, cnt, erun, m1, m2, m3, m4, m5, m6⟩ :=
+      mid_spec n sl sh W D Qup qh qn0 hi.1 hi.2.1 hnsum hsh1 (by omega) hD hnorm hsz hqh h3 h4 h5
+    rw [erun]
+    simp only []
+    obtain ⟨l1, l2, l3, l4, l5⟩ := loPart_spec C n dn W D sl sh X cyf Qh' recur hrec hdn hnsum hsh1 hsl2 hD hnorm hsz
+      m2 m3 m1 m5 m6
+    generalize loPart C sbLeaf recur n dn W D sl sh X cyf = lo at *
+    refine ⟨by rw [h1, l1]; simp, trivial, by omega, Qh' * B ^ sl + lo.1, ?_, ?_, l4, l5⟩
+    · rw [hnsum, Nat.add_comm sl sh, pow_add]
+      have : (Qh' + 1) * B ^ sl ≤ B ^ sh * B ^ sl := Nat.mul_le_mul_right _ m1
+      have e : (Qh' + 1) * B ^ sl = Qh' * B ^ sl + B ^ sl := by ring
+      omega
+    · rw [hnsum, Nat.add_comm sl sh, pow_add]; ring
+
 end Mpir.DcDivappr
